@@ -691,6 +691,11 @@ class EquityMonitor:
                     self.v(c, 'ratios', f'C16|ratio|{k}|not-nan-with-<2-samples', {'got': g})
             return
         b = np.array(db, dtype=float)
+        if not np.all(np.isfinite(b)) or np.any(b[:-1] <= 0):
+            # an equity sample at or below zero (a wiped-out account, e.g. leverage 125 in cross mode): daily returns
+            # from that sample on are not defined, and neither are the ratios built on them - no verdict
+            c.count('c16_non_positive_equity_sample_sessions')
+            return
         r = b[1:] / b[:-1] - 1.0
         ref = {}
         prices = np.cumprod(1 + r)
